@@ -13,4 +13,10 @@ def jobs(tier, ctx):
                   desc='same, strings of <= %d bytes over the alphabet {. / a # NUL} (the classes the function distinguishes)' % na,
                   inputs='p: %d symbolic bytes from a 5-letter alphabet' % na,
                   assumptions=['legal_path distinguishes only the byte classes . / # NUL other (argued from the code) for the long-path variant']))
+    nn = 4 if tier == 'quick' else 6
+    for (cf, nm) in (('"d/f.c"', 'sub'), ('"f.c"', 'root')):
+        J.append(dict(name='include_path.%s.n%d' % (nm, nn), srcs=['@harness/C15/include_path.c'], stubs=['@world/world_base.c', '@world/libc_models.c', '@world/world_err.c'], defs=['NB=%d' % nn, 'CURFILE=' + cf], unwind=nn + 12,
+                      nobody_ok=['*'], targets=['inc_open', 'inc_lexically_normal'], timeout=400, mem_gb=8, opt_witness=['searched_include_dir'],
+                      desc='#include of any header name of <= %d bytes from %s with one include directory: every path handed to open() is relative and has no ".." component' % (nn, cf),
+                      inputs='%d header name bytes' % nn, assumptions=['open() always fails so that the whole search order is exercised']))
     return J
